@@ -345,8 +345,16 @@ def run(ctx):
             for b, n in rep:
                 f.write(b'  ' + str(n).encode() + b' ' + b + b'\n')
         rdirs = [os.path.join(common.scratch_dir('rules'), n) for n in ('c19a', 'c19b', 'c19c')]
+        over = i in (0, 1)
+        if over:
+            # the counted form is trained under a rule name that holds an earlier training of another list (keyboard walks, symbols,
+            # long digit runs): the ruleset is that of the list all the same
+            f0 = os.path.join(root, 't0.txt')
+            with open(f0, 'wb') as f:
+                f.write(b''.join(w_ + b'\n' for w_ in (b'1qaz2wsx', b'zaq1!@#', b'qwerty!!', b'$$$$', b'1234567890123', b'asdf1', b'tiger')))
+            common.train(f0, rdirs[2], encoding=enc, ngram=2)
         oks = [common.train(f1, rdirs[0], encoding=enc, ngram=3)[0], common.train(f2, rdirs[1], encoding=enc, ngram=3)[0],
-               common.train(f3, rdirs[2], encoding=enc, ngram=3, prefixcount=True)[0]]
+               common.train(f3, rdirs[2], encoding=enc, ngram=3, prefixcount=True, keep=over)[0]]
         cases += 1
         dist['trained_pairs'] += 1
         if not all(oks):
